@@ -582,6 +582,28 @@ def reset_globals_to_pristine():
             setattr(m, k, copy.deepcopy(v))
         except Exception:
             pass
+    # memoised functions (functools.lru_cache / cache) keep state across calls: start every run cold
+    for m in _emd_modules():
+        for k, v in list(vars(m).items()):
+            _clear_caches(v)
+            if isinstance(v, type) and getattr(v, '__module__', '').startswith('emd'):
+                for kk, vv in list(vars(v).items()):
+                    _clear_caches(getattr(vv, '__func__', vv))
+
+
+def _clear_caches(v):
+    cc = getattr(v, 'cache_clear', None)
+    if callable(cc) and not isinstance(v, type):
+        try:
+            cc()
+        except Exception:
+            pass
+    inner = getattr(v, '__wrapped__', None)
+    if inner is not None and inner is not v and callable(getattr(inner, 'cache_clear', None)):
+        try:
+            inner.cache_clear()
+        except Exception:
+            pass
 
 
 def remember_pristine_logging():
